@@ -16,8 +16,10 @@ import DEngine.Model.MiniKv
       - `checkpoint` = `persist_data_async` (open with truncate [`persist_data:truncated`], write all
         [`persist_data:written`]), `persist_metadata_async` (truncate [`persist_metadata:truncated`],
         write index+term [`persist_metadata:written`]), `clear_wal_async` [`clear_wal:done`].
-      - `flush` (sync) = `persist_data` + `persist_metadata`; WAL kept.
-      - `Drop` = `save_hard_state` = `persist_last_applied` + `flush`; WAL kept.
+      - `flush` (sync) = `persist_data` [`persist_data_sync:written`] + `persist_metadata`
+        [`persist_metadata_sync:written`]; WAL kept.
+      - `Drop` = `save_hard_state` = `persist_last_applied` (metadata FIRST [`persist_metadata_sync:written`])
+        + `flush`; WAL kept.
       - `new` → `load_from_disk`: `load_metadata` (missing / shorter than 16 bytes ⇒ (0,0)), `load_data`,
         `replay_wal` (every record applied in order, entry index parsed and IGNORED, `last_applied` NOT
         advanced), WAL cleared if it was non-empty [`clear_wal:done`].
@@ -90,6 +92,12 @@ def ckptSteps (s : St) : St × List Img :=
   (s5, [img s1 "persist_data:truncated", img s2 "persist_data:written",
         img s3 "persist_metadata:truncated", img s4 "persist_metadata:written", img s5 "clear_wal:done"])
 
+/-- File `flush()` (sync): data file, then metadata file; a crash point after each. -/
+def flushSteps (s : St) : St × List Img :=
+  let s1 := { s with dData := s.data }
+  let s2 := { s1 with dMeta := s.la }
+  (s2, [img s1 "persist_data_sync:written", img s2 "persist_metadata_sync:written"])
+
 /-- `new()` on an image: (contents, applied index). -/
 def recover (eng : Eng) (i : Img) : AMap × Nat :=
   match eng with
@@ -114,17 +122,20 @@ def step (s : St) : Op → St × List Img
     | .rocks => ({ s with dMeta := s.la }, [])
   | .flush =>
     match s.eng with
-    | .file => ({ s with dData := s.data, dMeta := s.la }, [])
+    | .file => flushSteps s
     | .rocks => ({ s with dMeta := s.la }, [])
   | .reopen =>
     match s.eng with
     | .file =>
-      let s1 := { s with dData := s.data, dMeta := s.la }
+      -- Drop: save_hard_state = persist_last_applied (metadata first), then flush
+      let s0 := { s with dMeta := s.la }
+      let (s1, is) := flushSteps s0
       let r := recover .file (img s1 "")
-      if s1.wal.isEmpty then ({ s1 with data := r.1, la := r.2, due := false }, [])
+      if s1.wal.isEmpty then
+        ({ s1 with data := r.1, la := r.2, due := false }, img s0 "persist_metadata_sync:written" :: is)
       else
         let s2 := { s1 with data := r.1, la := r.2, due := false, wal := [] }
-        (s2, [img s2 "clear_wal:done"])
+        (s2, img s0 "persist_metadata_sync:written" :: (is ++ [img s2 "clear_wal:done"]))
     | .rocks => ({ s with dMeta := s.la }, [])
   | .tick => ({ s with due := true }, [])
 
